@@ -171,6 +171,14 @@ def sx_norm(x):
     return x
 
 
+# texts that differ only in layout a lossy normalisation could erase (spacing next to operators, redundant parentheses,
+# letter case of a suffix): parsed as the two parts of ONE instruction (same worker process), in both orders
+CONFUSABLE = [("{ RdV = i++ + j; }", "{ RdV = i + ++j; }"), ("{ RdV = a-- - b; }", "{ RdV = a - --b; }"), ("{ RdV = a & &b; }", "{ RdV = a && b; }"),
+              ("{ RdV = a - -b; }", "{ RdV = a-- b; }"), ("{ RdV = (a) - b; }", "{ RdV = (a)-b; }"), ("{ RdV = a * (b + c); }", "{ RdV = a * b + c; }"),
+              ("{ RdV = 1U; }", "{ RdV = 1u; }"), ("{ if (a) RdV = 1; else RdV = 2; }", "{ if (a) { RdV = 1; } else { RdV = 2; } }"),
+              ("{ RdV = a < b; }", "{ RdV = a << b; }"), ("{ RdV = RsV; }", "{ RdV = Rsv; }"), ("{ RdV = (int8_t) a; }", "{ RdV = (int8_t)a; }")]
+
+
 CHILD = r"""
 import sys, hashlib, json
 sys.path.insert(0, %(repo)r)
@@ -193,6 +201,13 @@ res = Parser.parse({"T%%d" %% i: [t] for i, t in enumerate(texts)})
 for i, t in enumerate(texts):
     pi = res["T%%d" %% i]
     out[t].append(hashlib.sha1(str(pi.asts[0]).encode()).hexdigest()[:12] if pi.asts else "exc:" + pi.exception.name)
+pairs = json.loads(%(pairs)r)
+flip = int(os.environ.get("PYTHONHASHSEED", "0")) %% 2
+for k, pr in enumerate(pairs):
+    parts = list(pr)[::-1] if flip else list(pr)
+    pi = Parser.parse({"PAIR%%d" %% k: parts})["PAIR%%d" %% k]
+    for j, t in enumerate(parts):
+        out.setdefault(t, []).append(hashlib.sha1(str(pi.asts[j]).encode()).hexdigest()[:12] if len(pi.asts) == len(parts) else "exc:" + (pi.exception.name if pi.exception else "trees"))
 sys.stdout = so
 print(json.dumps(out))
 """
@@ -306,10 +321,13 @@ def run(tier: str, replay=None) -> int:
     # determinism across processes / hash seeds / parser construction sites
     beh = rc.load_behaviours()
     dn = rc.sample_names(beh, seed(), per_group=1, per_feature=0)[: (12 if tier == "quick" else 80)]
-    dtexts = AMBIG + [beh[n_][0] for n_ in dn if len(beh[n_][0]) < 400] + srcs[:20]
+    dtexts = AMBIG + [beh[n_][0] for n_ in dn if len(beh[n_][0]) < 400] + srcs[:20] + [t for pr_ in CONFUSABLE for t in pr_]
+    dtexts = list(dict.fromkeys(dtexts))
     seeds = [0, 1, 2, 3] if tier == "quick" else list(range(16))
     procs = []
-    code = CHILD % {"repo": REPO, "texts": json.dumps(dtexts)}
+    okp = [pr_[0] == "ok" for pr_ in rc.parse_programs([t for cp in CONFUSABLE for t in cp])]
+    conf = [cp for k_, cp in enumerate(CONFUSABLE) if okp[2 * k_] and okp[2 * k_ + 1]]    # a failing part voids its whole instruction (C18)
+    code = CHILD % {"repo": REPO, "texts": json.dumps(dtexts), "pairs": json.dumps(conf)}
     for hs in seeds:
         env = dict(os.environ, PYTHONHASHSEED=str(hs))
         procs.append((hs, subprocess.Popen(["/venv/bin/python", "-c", code], cwd=REPO, env=env, stdout=subprocess.PIPE, stderr=subprocess.DEVNULL, text=True)))
@@ -339,7 +357,7 @@ def run(tier: str, replay=None) -> int:
     res.coverage.update({
         "evaluations": evals + len(dtexts) * len(seeds), "distinct_nontrivial": len(set(texts)),
         "rule": "all 256 ordered pairs of binary operators without parentheses (exhaustive) + random expression token strings (depth <= 5/6, random parenthesisation and spacing, all operand token classes, casts, unary, ?:, postfix) parsed by Lark and by the Lean reference parser; statement nests; texts re-parsed in fresh processes per PYTHONHASHSEED through both parser construction sites. distinct = distinct expression texts",
-        "agree": agree, "unary_amp_class_occurrences": amp_known, "rejected_by_both": rejected_both, "hash_seeds": seeds, "determinism_texts": len(dtexts), "violations_total": len(viol), "samples": samples,
+        "agree": agree, "unary_amp_class_occurrences": amp_known, "rejected_by_both": rejected_both, "hash_seeds": seeds, "determinism_texts": len(dtexts), "confusable_pairs_both_orders": len(conf), "violations_total": len(viol), "samples": samples,
     })
     res.assumptions.append("Earley ambiguity resolution inside lark is sampled over hash seeds, not proved")
     return res.finish(TB, "cd lean && lake build RzilVerif.Props.C17 RzilVerif.Props.C17Shape")
